@@ -709,6 +709,26 @@ def run_once(sc):
                         c.last_seq = v
                         c.cached = None
                 shape.append(("seq_advance",))
+            elif kind == "many_reads":
+                # a genuinely long history: n single reads in a row, each checked against the controller's memory
+                q = op["req"]
+                name, val, tstr = ref.expect_read(q["ast"], ctl.mem)
+                bad = 0
+                for i in range(op["n"]):
+                    world.oplog = []
+                    o_, r_ = harness.call(sim, drv.read, q["text"])
+                    if o_ != "ok" or not r_ or not values_equal(r_.value, val):
+                        bad += 1
+                        if bad == 1:
+                            hits.hit("C01", "read.value", f"read #{i} of a long history: {o_} {str(r_)[:120]}", what="falsy",
+                                     kind="atomic", path="single")
+                    if sim.blown:
+                        break
+                evals["C17"] += op["n"]
+                evals["C01"] += op["n"]
+                calls += op["n"]
+                sim.probe("long_history_70k")
+                shape.append(("many_reads", op["n"] >= 65536))
             elif kind == "read":
                 texts = [q["text"] for q in op["reqs"]]
                 outcome, res = harness.call(sim, drv.read, *texts)
@@ -752,6 +772,20 @@ def run_once(sc):
             for h in hits.items:
                 if h["oracle"] == "seq.adjacent" and h["op"] == op["id"] and "call_size" not in h["features"]:
                     h["features"]["call_size"] = ">=65000 requests" if len(op.get("reqs", ())) >= 65000 else "<65000 requests"
+            nm = len([1 for r_ in world.oplog if r_.get("kind") == "multi_service"])
+            if nm >= 2:
+                sim.probe("multi_service_ge2_packets")
+            if any(r_.get("kind") == "forward_open" and not r_.get("large") and r_.get("ok") for r_ in world.oplog):
+                sim.probe("standard_fo_fallback_taken")
+            if kind == "open" and ctl.micro800:
+                sim.probe("micro800_open")
+            seqs_ = [r_["seq"] for r_ in world.oplog if r_.get("kind") == "seq"]
+            if len(seqs_) >= 2 and any(b < a for a, b in zip(seqs_, seqs_[1:])):
+                sim.probe("sequence_wrap_inside_call")
+            if any(r_.get("kind") == "tag_service" and r_.get("status") == 6 and r_.get("service") == 0x52 for r_ in world.oplog):
+                sim.probe("status6_on_fragmented_read")
+            if len([1 for r_ in world.oplog if r_.get("kind") == "symbol_list"]) >= 3:
+                sim.probe("symbol_list_ge3_pages")
             # monitors that every op feeds
             if kind in ("open", "read", "write", "get_tag_list", "close"):
                 evals["C11"] += 1
@@ -1043,6 +1077,40 @@ def directed(tier, prop):
         out += directed_sizes_mixed()
     if prop == "C17":
         out += directed_wrap(tier)
+    if prop == "C09":
+        out += directed_indices(tier)
+    return out
+
+
+def directed_indices(tier):
+    """element ids around the 8/16/32-bit segment formats: a 70000-element array and a [300,3,80] array,
+    symbolic and symbol-instance addressing, instance ids above 255 and 65535"""
+    out = []
+    idx1 = sorted({0, 1, 2, 127, 128, 254, 255, 256, 257, 1000, 32767, 32768, 65534, 65535, 65536, 65537, 69998, 69999})
+    for fw, inst0 in ((20, 1), (32, 1), (32, 0xFF), (32, 0x100), (32, 0xFFFF), (32, 0x10000), (32, 0x12345678)):
+        tags = [{"name": "big", "type": "SINT", "dims": [70000]}, {"name": "cube", "type": "INT", "dims": [300, 3, 80]}]
+        world = base_world(tags, large=True, fw=fw)
+        for k, t in enumerate(world["project"]["tags"]):
+            t["instance_id"] = inst0 + k
+            t["init"] = bytes((i * 31 + k) % 256 for i in range(70000 if t["name"] == "big" else 300 * 3 * 80 * 2)).hex()
+        reqs = []
+        for i in idx1:
+            a = {"scope": None, "tag": "big", "idx": [i], "path": [], "bit": None, "count": None}
+            reqs.append({"text": render(a)[0], "ast": a, "invalid": None})
+        for i, j, k in ((0, 0, 0), (255, 2, 79), (256, 0, 1), (299, 2, 79), (1, 1, 1), (257, 1, 78)):
+            a = {"scope": None, "tag": "cube", "idx": [i, j, k], "path": [], "bit": None, "count": 2 if k < 79 else None}
+            reqs.append({"text": render(a)[0], "ast": a, "invalid": None})
+        ops = [{"id": "o0", "kind": "open"}, {"id": "o1", "kind": "read", "reqs": reqs}]
+        for n, q in enumerate(reqs[:24:2]):
+            ops.append({"id": f"s{n}", "kind": "read", "reqs": [q]})
+        wa = {"scope": None, "tag": "big", "idx": [65536], "path": [], "bit": None, "count": 3}
+        ops.append({"id": "w1", "kind": "write", "reqs": [{"text": render(wa)[0], "ast": wa, "invalid": None}],
+                    "values": [[1, -2, 3]], "readback": True})
+        ops.append({"id": "oz", "kind": "close"})
+        out.append({"engine": "logix", "seed": 4000 + fw + inst0 % 1000, "prop": "C09", "world": world,
+                    "net": {"chunk": "whole", "send": "all", "latency": "zero"},
+                    "driver": {"cls": "LogixDriver", "path": "10.0.0.1", "init_tags": True, "init_program_tags": False,
+                               "log": "off", "seq_advance": 0}, "ops": ops, "faults": []})
     return out
 
 
@@ -1194,6 +1262,19 @@ def counter_distance(n_small):
 def directed_wrap(tier):
     """the 16-bit counter wraps inside every kind of multi-packet operation"""
     out = []
+    if tier == "thorough":
+        # >= 70 000 connected messages on one connection (the counter wraps once, at a phase set by seq_advance)
+        for adv in (0, 1, 30000, 65534):
+            tags = [{"name": "w", "type": "DINT", "dims": []}]
+            wq = {"scope": None, "tag": "w", "idx": None, "path": [], "bit": None, "count": None}
+            sc = {"engine": "logix", "seed": 70000 + adv, "prop": "C17", "world": base_world(tags, large=adv % 2 == 0),
+                  "net": {"chunk": "whole", "send": "all", "latency": "zero"}, "budgets": {"frames": 200000},
+                  "driver": {"cls": "LogixDriver", "path": "10.0.0.1", "init_tags": True, "init_program_tags": False,
+                             "log": "off", "seq_advance": adv},
+                  "ops": [{"id": "o0", "kind": "open"},
+                          {"id": "o1", "kind": "many_reads", "n": 70000, "req": {"text": "w", "ast": wq, "invalid": None}},
+                          {"id": "o2", "kind": "close"}], "faults": []}
+            out.append(sc)
     # 65272 + 263 multi-service packets = 65535 draws between the fragmented request and the packet sent before it
     out += [counter_distance(n) for n in ((65271, 65272, 65273) if tier == "thorough" else (65272,))]
     tags = [{"name": "big", "type": "DINT", "dims": [400]}, {"name": "w", "type": "DINT", "dims": []},
